@@ -977,15 +977,18 @@ fn main() {
                         let c = canonical(&t, &base_dir);
                         // every 12th new text (decided by the text id alone): what does the FIRST
                         // call of a fresh process return under a different real environment?
-                        let mut prng = Rng::derive(seed, &[ENGINE_A, 0xF1C5, *id as u64]);
-                        if prng.below(12) == 0 && c.class != "timeout" && firstcall_violations.len() < 3 {
+                        let mut prng = Rng::derive(seed, &[ENGINE_A, 0xF1C5, *id as u64, from]);
+                        // (errors and panics more often than successes: error paths are where
+                        // diagnostics-minded changes read the environment)
+                        let rate = if c.class == "ok" { 16 } else if c.class == "panic" { 2 } else { 5 };
+                        if prng.below(rate) == 0 && c.class != "timeout" && firstcall_violations.len() < 3 {
                             let n = prng.range(1, 4);
                             let mut envs: Vec<(String, String)> = vec![];
                             for _ in 0..n {
                                 envs.push(((*prng.pick(ENV_NAMES)).to_string(), (*prng.pick(ENV_VALUES)).to_string()));
                             }
-                            if prng.chance(1, 2) {
-                                envs.push(("RUST_BACKTRACE".to_string(), (*prng.pick(&["1", "full", "0"])).to_string()));
+                            if prng.chance(2, 3) {
+                                envs.push(("RUST_BACKTRACE".to_string(), (*prng.pick(&["1", "full", "1", "0"])).to_string()));
                             }
                             let tf = format!("{replay_dir}/firstcall-{}-{}.kiki", from, id);
                             std::fs::write(&tf, t.as_bytes()).expect("write text");
@@ -1001,6 +1004,9 @@ fn main() {
                             firstcall_children += 1;
                             if let Ok(out) = cmd.output() {
                                 let got = String::from_utf8_lossy(&out.stdout).trim().to_string();
+                                if std::env::var("VERIF_DEBUG_FIRSTCALL").is_ok() {
+                                    eprintln!("firstcall id={} class={} shape={} envs={:?} got={:?} want={}:{:016x}", id, c.class, c.payload.chars().take(12).collect::<String>(), envs, got, c.class, c.digest());
+                                }
                                 let want = format!("{}:{:016x}", c.class, c.digest());
                                 if !got.is_empty() && got != want && !got.starts_with("timeout") {
                                     let mut ej = J::obj();
